@@ -16,6 +16,7 @@ from common import Check  # noqa: E402
 # property -> (python module, Lean modules whose theorems are the obligations)
 REGISTRY = {
     "C01": ("c01", ["Esp.Props.C01"]),
+    "C02": ("c02", ["Esp.Props.C02"]),
 }
 
 
